@@ -2466,6 +2466,8 @@ struct evrrul_s {
 
 	/* rrul/xrul */
 	struct rrulsp_s rrul;
+	/* UNTIL as it was read, the rule's is in the rule's terms */
+	echs_instant_t until;
 
 	/* iterator state */
 	size_t rdi;
@@ -2564,6 +2566,23 @@ fix_rrul_dflts(struct rrulsp_s rr, echs_instant_t from, bool multi)
 	return rr;
 }
 
+static echs_instant_t
+until_in_rule_terms(echs_instant_t u, echs_tzob_t zon, echs_scale_t sca)
+{
+/* rules are expanded in local time and in their scale, UNTIL comes in UTC
+ * (when DTSTART has a zone) and in the Gregorian calendar */
+	if (echs_max_instant_p(u) || echs_nul_instant_p(u)) {
+		return u;
+	}
+	if (zon && !echs_instant_all_day_p(u)) {
+		u = echs_instant_detach_tzob(echs_instant_loc(u, zon));
+	}
+	if (sca != SCALE_GREGORIAN) {
+		u = echs_instant_detach_scale(echs_instant_rescale(u, sca));
+	}
+	return u;
+}
+
 static echs_evstrm_t
 __make_evrrul(echs_event_t e, rrulsp_t rr, size_t nr, bool exc, bool multi)
 {
@@ -2593,6 +2612,9 @@ __make_evrrul(echs_event_t e, rrulsp_t rr, size_t nr, bool exc, bool multi)
 
 	/* bang the first one */
 	this->rrul = fix_rrul_dflts(rr[0U], this->seed, multi);
+	this->until = this->rrul.until;
+	this->rrul.until = until_in_rule_terms(
+		this->until, zon, this->rrul.scale);
 	this->seq = 0U;
 	this->ref = nr;
 	that[0U] = this;
@@ -2600,6 +2622,9 @@ __make_evrrul(echs_event_t e, rrulsp_t rr, size_t nr, bool exc, bool multi)
 	for (size_t i = 1U; i < nr; i++) {
 		this[i] = this[0U];
 		this[i].rrul = fix_rrul_dflts(rr[i], this->seed, multi);
+		this[i].until = this[i].rrul.until;
+		this[i].rrul.until = until_in_rule_terms(
+			this[i].until, zon, this[i].rrul.scale);
 		this[i].seq = i;
 		that[i] = this + i;
 	}
@@ -2817,7 +2842,11 @@ send_evrrul(int whither, echs_const_evstrm_t s)
 		}
 		send_ev(whither, e, this->zon);
 	}
-	send_rrul(whither, &this->rrul, this->ncch - this->rdi, this->exc);
+	with (struct rrulsp_s tmp = this->rrul) {
+		/* UNTIL goes out the way it came in */
+		tmp.until = this->until;
+		send_rrul(whither, &tmp, this->ncch - this->rdi, this->exc);
+	}
 	return;
 }
 
